@@ -5,7 +5,7 @@
     H_TRIAGE_DOT is DISCHARGED here ([triage_dot_holds]: the float dot product of two vectors of
     squared length <= 2 is within 3.046875 * 2^-52 of the exact one, underflow included), so
     SignDotProd is exact with no hypothesis ([sign_dot_prod_exact]). The determinant (H_TRIAGE_DET)
-    is TODO along the same lines. *)
+    is discharged on top of these lemmas in Proofs/C02_TriageDet.v. *)
 From Coq Require Import ZArith Reals Floats Lra Lia Bool Psatz.
 From Flocq Require Import Core.Core Relative IEEE754.BinarySingleNaN IEEE754.PrimFloat.
 From Geo Require Import Base.GoPrim Base.F64 Base.Exact Gen.R3 Gen.S2Pred Model.Pred Proofs.C02_Exact Proofs.C02_Float.
@@ -215,3 +215,41 @@ Qed.
 Theorem sign_dot_prod_exact a b : finite a -> finite b -> norm2R a <= 2 -> norm2R b <= 2 ->
   sign_dot_prod a b = sgnR (dotR a b).
 Proof. apply sign_dot_prod_spec. exact triage_dot_holds. Qed.
+
+(** the value of a float addition is the rounding of the exact sum (used for the sign-preserving
+    last step of the determinant) *)
+Lemma fadd_rnd x y : ffinite x = true -> ffinite y = true -> Rabs (FR x + FR y) <= bpow radix2 1023 ->
+  ffinite (x + y)%float = true /\ FR (x + y)%float = rnd64 (FR x + FR y).
+Proof.
+  rewrite !ffinite_equiv. unfold FR. rewrite add_equiv. intros Fx Fy Hb.
+  pose proof (Bplus_correct prec emax ltac:(reflexivity) ltac:(reflexivity) mode_NE (Prim2B x) (Prim2B y) Fx Fy) as H.
+  rewrite Rlt_bool_true in H by (apply round_no_overflow; exact Hb).
+  destruct H as (E & F & _). split; [exact F|exact E].
+Qed.
+
+Lemma FR_generic x : generic_format radix2 fexp64 (FR x).
+Proof. unfold FR. apply generic_format_B2R. Qed.
+
+(** comparing a float sum with a float constant decides the comparison of the EXACT sum *)
+Lemma fadd_gt K x y : ffinite K = true -> ffinite x = true -> ffinite y = true ->
+  Rabs (FR x + FR y) <= bpow radix2 1023 -> PrimFloat.ltb K (x + y)%float = true -> FR K < FR x + FR y.
+Proof.
+  intros FK Fx Fy Hb L. destruct (fadd_rnd x y Fx Fy Hb) as [Fs Es].
+  apply ltb_true_R in L. destruct (ffinite_rank _ FK) as [_ RK]. destruct (ffinite_rank _ Fs) as [_ RS].
+  rewrite RK, RS, Es in L.
+  destruct (Rlt_or_le (FR K) (FR x + FR y)) as [H|H]; [exact H|]. exfalso.
+  assert (rnd64 (FR x + FR y) <= rnd64 (FR K)).
+  { apply round_le; auto with typeclass_instances. apply FLT_exp_valid. reflexivity. }
+  rewrite (round_generic radix2 fexp64 ZnearestE (FR K)) in H0 by apply FR_generic. lra.
+Qed.
+Lemma fadd_lt K x y : ffinite K = true -> ffinite x = true -> ffinite y = true ->
+  Rabs (FR x + FR y) <= bpow radix2 1023 -> PrimFloat.ltb (x + y)%float K = true -> FR x + FR y < FR K.
+Proof.
+  intros FK Fx Fy Hb L. destruct (fadd_rnd x y Fx Fy Hb) as [Fs Es].
+  apply ltb_true_R in L. destruct (ffinite_rank _ FK) as [_ RK]. destruct (ffinite_rank _ Fs) as [_ RS].
+  rewrite RK, RS, Es in L.
+  destruct (Rlt_or_le (FR x + FR y) (FR K)) as [H|H]; [exact H|]. exfalso.
+  assert (rnd64 (FR K) <= rnd64 (FR x + FR y)).
+  { apply round_le; auto with typeclass_instances. apply FLT_exp_valid. reflexivity. }
+  rewrite (round_generic radix2 fexp64 ZnearestE (FR K)) in H0 by apply FR_generic. lra.
+Qed.
